@@ -253,6 +253,58 @@ fn main() {
                     rep.sample(|| scn.to_json());
                 }
             }
+            // back-pressure meeting service restarts, accept-error back-off and worker replacement
+            if args.tier != "miri" {
+                let kinds: &[bp::Special] = match prop.as_str() {
+                    "C02" => &[bp::Special::RestartWhileSaturated],
+                    "C03" => &[bp::Special::BackoffWithWakeups, bp::Special::RefillAfterReplacement, bp::Special::RestartWhileSaturated],
+                    _ => &[bp::Special::RestartWithQueuedConnections, bp::Special::RestartWhileSaturated],
+                };
+                let per_kind = if args.tier == "thorough" { 160u64 } else { 16 };
+                let mut k = 0u64;
+                for kind in kinds {
+                    for j in 0..per_kind {
+                        k += 1;
+                        if !args.mine(k) {
+                            continue;
+                        }
+                        rep.evaluations += 1;
+                        let sd = args.seed ^ (j << 8) ^ 0x5bec ^ (*kind as u64);
+                        let mut out = bp::run_special(*kind, sd, &mut seen);
+                        let mut tries = 0;
+                        while let bp::Outcome::Inconclusive(_) = out {
+                            tries += 1;
+                            if tries > 2 {
+                                break;
+                            }
+                            out = bp::run_special(*kind, sd, &mut seen);
+                        }
+                        match out {
+                            bp::Outcome::Held => rep.nontrivial(fnv_str(&format!("{kind:?}{sd}"))),
+                            bp::Outcome::Violated(fails) => {
+                                let mut kept = 0;
+                                for f in fails {
+                                    if f.sig.starts_with(&prop) {
+                                        kept += 1;
+                                        rep.violation(f.sig, f.desc, vh_core::json!({"prop": prop.clone(), "special": format!("{kind:?}"), "special_seed": sd}));
+                                    } else {
+                                        rep.count("other_property_violations_seen");
+                                    }
+                                }
+                                if kept == 0 {
+                                    rep.nontrivial(fnv_str(&format!("{kind:?}{sd}")));
+                                }
+                            }
+                            bp::Outcome::Inconclusive(why) => rep.inconclusive(&why),
+                        }
+                    }
+                }
+                rep.add("obs_special_scenarios", seen.special_scenarios);
+                rep.add("obs_service_restarts_under_backpressure", seen.service_restarts);
+                rep.add("obs_restarts_with_queued_connections", seen.restarts_with_queued_connections);
+                rep.add("obs_backoffs_with_wakeups", seen.backoffs_with_wakeups);
+                rep.add("obs_refills_after_worker_replacement", seen.refills_after_replacement);
+            }
             // C04: servers wider than one availability word (128 workers per word)
             if prop == "C04" && args.tier != "miri" {
                 let widths: &[usize] = if args.tier == "thorough" { &[130, 200, 260, 300, 390, 512] } else { &[130, 260] };
@@ -286,7 +338,7 @@ fn main() {
             rep.rule = "back-pressure scenarios on a real server: workers 1..3 x limit 1..4 (full grid first, then seeded shapes) x {TCP, UDS, TCP+UDS} x {Actix System, plain Tokio} x optional failpoints (send<->inc, dec<->wake, recv<->call, accept<->dispatch, handle_waker) x optional concurrent-release stress; \
                         optionally after a prelude in which one worker died and was replaced (handle list no longer in index order; not for C02); phases: first round (sequential clients), saturate all workers, queue extra clients, release one held connection at a time, partial-set round; after every step the barrier (guard-drop completion + no-op command ping + idle snapshot + pick-up) is reached and the quiescent-point rules are evaluated on the ordered hook log: \
                         C02 shadow in-flight <= limit at every Dispatch and service-call concurrency per worker thread <= limit, nothing dispatched while all are saturated; C03 no connection waits in a backlog while a live worker has a free slot; C04 windows of W dispatches hit W distinct workers while unsaturated, a released slot is refilled on the releasing worker, the available set is covered, and at every quiescent point each live worker's availability bit agrees with its counter in the same snapshot. \
-                        C04 also runs servers with 130..512 workers (limit 2): first W dispatches distinct, all saturated after 2W, nothing dispatched while saturated, and a release on a worker index next to a bitset word boundary lets exactly that worker take the queued client. Plus exhaustive probes of the real Counter / guard / Availability types. Distinct = distinct scenario shape; non-trivial = scenario ran to the end with its barriers reached."
+                        Mini-scenarios cross back-pressure with other mechanisms: a service fails its readiness check and is re-created while every worker is saturated (nothing may be dispatched), or while its otherwise free worker is being filled through the accept thread (one more client must wait); an accept error's back-off expires while the accept loop keeps being woken (the listener must be re-armed and the waiting connection served); the only worker with room dies and a client arrives during the outage (it is dispatched when the replacement registers). C04 also runs servers with 130..512 workers (limit 2): first W dispatches distinct, all saturated after 2W, nothing dispatched while saturated, and a release on a worker index next to a bitset word boundary lets exactly that worker take the queued client. Plus exhaustive probes of the real Counter / guard / Availability types. Distinct = distinct scenario shape; non-trivial = scenario ran to the end with its barriers reached."
                 .into();
             rep.add("obs_quiescent_points", seen.quiescent_points);
             rep.add("obs_quiescent_with_pending_and_no_spare", seen.quiescent_with_pending_and_no_spare);
@@ -333,6 +385,7 @@ fn main() {
                         rep.add("obs_failpoint_delays_fired", seen.failpoint_hits);
                         rep.add("obs_pause_resume_cycles", seen.pause_resume_cycles);
                         rep.add("obs_prior_fault_preludes", seen.prior_fault_preludes);
+                        rep.add("obs_stops_with_services_not_ready", seen.unready_at_stop);
                         rep.rule = "real server, workers 1..3 x limit 1..3 x listeners {TCP, UDS, TCP+UDS, TCP+TCP} x {Actix, Tokio}: 2..8 client threads each making 2..11 connections (hold / finish-at-once / abort, random early releases), optional pause+resume in the middle, failpoints on both sides of the worker queue; \
                                     then a barrier-reached quiescent point (nothing accepted is undispatched, no open client closed unserved, unserved clients are explained by backlog + capacity), a burst queued behind the limit, stop (graceful or forced) and join; \
                                     oracles over the ordered log and the client sockets: every cid identified at most once, by an instance of the listener it connected to; accepted = dispatched + dropped; after shutdown every client sees its socket closed; no call after a graceful stop resolved; open-fd count returns to its value before the server started. \
